@@ -85,6 +85,85 @@ _SPARE = {"A": ["C2", "C5", "C6", "N6", "C8"], "G": ["C2", "N2", "C5", "C6", "O6
           "U": ["C2", "N3", "O4", "C5", "C6"], "T": ["C2", "N3", "O4", "C5", "C6", "C7"]}
 
 
+_TEMPLATES = {}
+
+
+def _templates():
+    """one complete residue per base letter (RNA from 1EHZ, DNA incl. thymine from 184D / 1JJP), taken from the corpus"""
+    if _TEMPLATES:
+        return _TEMPLATES
+    from . import chem
+    for name in ("1ehz-assembly-1.cif", "184D.cif", "1JJP.cif"):
+        for r in geo.snapped(geo.load3d(name)).residues:
+            L = r.one_letter_name
+            want = chem.BASE_ATOMS.get(L)
+            if want and (name, L) != ("", "") and all(r.find_atom(a) is not None for a in want) and chem.base_normal(r) is not None:
+                _TEMPLATES.setdefault((L, r.name), r)
+    return _TEMPLATES
+
+
+def stack_placements(rng, n=10):
+    """synthetic stackings at the thresholds: two complete bases of (usually different) letters with parallel normals, the second
+    placed so that the TRUE centroid-to-centroid vector (all base heavy atoms of the oracle's own table) has length d and makes the
+    angle theta with the normal, d and theta drawn just inside / just outside 6 A and 45 degrees"""
+    import dataclasses
+    from rnapolis.tertiary import Structure3D
+    from . import chem
+    by_letter = {}
+    for (L, nm), r in _templates().items():
+        by_letter.setdefault(L, []).append(r)
+    letters = sorted(by_letter)
+    residues = []
+    for k in range(n):
+        # letters uniformly (so that thymine and the DNA templates are as frequent as the RNA ones), then one of their templates
+        ra = rng.choice(by_letter[rng.choice(letters)])
+        rb = rng.choice(by_letter[rng.choice(letters)])
+        if rng.random() < 0.25:
+            rb = ra          # an ideal stack: the same base, exactly parallel (or exactly antiparallel) normals
+
+        def cen(r):
+            pts = [np.array(r.find_atom(a).coordinates, dtype=float) for a in chem.BASE_ATOMS[r.one_letter_name]]
+            return sum(pts) / len(pts)
+        na, nb = np.array(chem.base_normal(ra), dtype=float), np.array(chem.base_normal(rb), dtype=float)
+        na, nb = na / np.linalg.norm(na), nb / np.linalg.norm(nb)
+        if rng.random() < 0.5:
+            nb_target = -na
+        else:
+            nb_target = na
+        # rotation taking nb to nb_target
+        v = np.cross(nb, nb_target)
+        c = float(np.dot(nb, nb_target))
+        if np.linalg.norm(v) < 1e-9:
+            R = np.eye(3) if c > 0 else -np.eye(3) + 2 * np.outer(_perp(nb), _perp(nb))
+        else:
+            vx = np.array([[0, -v[2], v[1]], [v[2], 0, -v[0]], [-v[1], v[0], 0]])
+            R = np.eye(3) + vx + vx @ vx * (1.0 / (1.0 + c))
+        u = _perp(na)
+        d = rng.choice([4.0, 5.0, 5.9, 6.1]) if rng.random() < 0.5 else rng.uniform(3.3, 6.5)
+        theta = math.radians(rng.choice([44.0, 44.7, 45.3, 46.0]) if rng.random() < 0.6 else rng.choice([0.0, 20.0, 40.0, 43.0, 47.0, 50.0]))
+        offset = d * (math.cos(theta) * na + math.sin(theta) * u) * rng.choice([1.0, -1.0])
+        origin = np.array([60.0 * k, 0.0, 0.0])
+        ca, cb = cen(ra), R @ cen(rb)
+
+        def place(r, Rm, t, chain, number):
+            atoms = []
+            for a in r.atoms:
+                q = Rm @ np.array([a.x, a.y, a.z]) + t
+                atoms.append(dataclasses.replace(a, x=geo.snap(float(q[0])), y=geo.snap(float(q[1])), z=geo.snap(float(q[2]))))
+            lab = dataclasses.replace(r.auth, chain=chain, number=number, icode=None) if r.auth is not None else None
+            lbl = dataclasses.replace(r.label, chain=chain, number=number) if r.label is not None else None
+            return dataclasses.replace(r, atoms=tuple(atoms), auth=lab, label=lbl)
+        residues.append(place(ra, np.eye(3), origin - ca, "A", 2 * k + 1))
+        residues.append(place(rb, R, origin + offset - cb, "A", 2 * k + 2))
+    return Structure3D(residues)
+
+
+def _perp(n):
+    a = np.array([1.0, 0.0, 0.0]) if abs(n[0]) < 0.9 else np.array([0.0, 1.0, 0.0])
+    u = np.cross(n, a)
+    return u / np.linalg.norm(u)
+
+
 def structures(ctx, kinds=("corpus", "moved", "jitter", "reversed", "thin", "thin-base"), big=False):
     """yield (name, kind, Structure3D) with grid-snapped coordinates"""
     rng = ctx.rng
@@ -93,6 +172,9 @@ def structures(ctx, kinds=("corpus", "moved", "jitter", "reversed", "thin", "thi
         files += ["1E7K_1_C.cif", "184D.cif", "488d.pdb"]
     if not ctx.quick:
         files += ["1JJP.cif", "1A1T_1_B.cif", "q-ugg-5k-salt_400-500ns_frame1065.pdb"]
+    if "synthetic-stack" in kinds:
+        for t in range(4 if ctx.quick else 25):
+            yield f"synthetic-stack-{t}", "synthetic-stack", stack_placements(rng, 16)
     for name in files:
         base = geo.snapped(geo.load3d(name))
         if "corpus" in kinds:
